@@ -313,7 +313,11 @@ def _job(task):
                            cutoff=cut)
         res['records'] += I.vector_star_oracles(ss, vk)
         res['records'] += I.projection_oracles(c, np.random.default_rng(task['seed']))
-        if task.get('lean') and ss.Nstates * vk.Nvstars * len(list(crys.G)) <= task['leancap']:
+        nG, n_, m_, d_ = len(list(crys.G)), ss.Nstates, vk.Nvstars, crys.dim
+        # exact-arithmetic operations of the Lean checker: Gram matrices, equivariance/average, group axioms
+        cost = 2 * m_ * m_ * n_ * d_ + 2 * nG * m_ * n_ * d_ * d_ + nG * nG * (n_ + d_ ** 3) + nG ** 3
+        res['info']['leancost'] = cost
+        if task.get('lean') and cost <= task['leancap']:
             lines = lean_lines(c, task.get('gfcap', 2000000))
             if lines is not None:
                 res['lean'] = lines
@@ -353,7 +357,7 @@ def _plan(ctx, for_search=False):
     # which cases also go through the Lean checker / exact model expansions (size = states * vstars * |G|)
     lean_quick = {('sq2d', 1), ('tri2d', 1), ('honey2d', 1), ('rect2d-2site', 1), ('oblique2d', 1), ('sc', 1),
                   ('mono', 1), ('ortho', 1)}
-    leancap = 12000 if quick else 250000
+    leancap = 450000
     for name in I.QUICK:
         for N in ((1, 2) if quick else (1, 2, 3)):
             if N == 3 and name in ('hcp', 'rumpled', 'triclinic', 'mono-2site'):
@@ -369,7 +373,7 @@ def _plan(ctx, for_search=False):
     nrand = 8 if quick else 60
     for t in range(nrand):
         tasks.append(dict(kind='random', name='random', cseed=rng.getrandbits(32), N=1 + (t % 2), seed=rng.getrandbits(32),
-                          lean=(t % 4 == 0), leancap=(4000 if quick else 120000)))
+                          lean=(t % 4 == 0 if quick else t % 2 == 0), leancap=(60000 if quick else 300000)))
     # big ones first so that the pool finishes evenly
     order = {'hcp': 0, 'rumpled': 0, 'mono-2site': 0, 'triclinic': 1, 'fcc': 1}
     tasks.sort(key=lambda t: (-t['N'] * (3 - order.get(t['name'], 2))))
